@@ -1413,7 +1413,13 @@ impl<'a> Parser<'a> {
     #[inline]
     fn attach_location_to_error(&mut self, mut err: Error) -> Error {
         if err.line().is_none() {
-            err.set_filename_and_span(self.filename(), self.stream.last_span())
+            let mut span = self.stream.last_span();
+            if span == Span::default() {
+                // no token was consumed at all (an empty expression): point at
+                // where the tokenizer stopped instead of at "line 0".
+                span = self.stream.tokenizer.current_span();
+            }
+            err.set_filename_and_span(self.filename(), span)
         }
         err
     }
